@@ -1,11 +1,17 @@
 import PycsepVerif.Proto
 import PycsepVerif.Model.Filter
+import PycsepVerif.Model.FilterMct
 /-!
 Driver ops of C04 (all prefixed `c04_`):
 
 * `c04_hist EVENTS FILTERS REGION CALL*` → `FLAGS|ids of object 0|ids of object 1|…`
 * `c04_load EVENTS FILTERS REGION` → ids of the loaded catalog or `exc`
 * `c04_epoch Y,M,D,h,m,s,us` → epoch milliseconds
+* `c04_mct EVENTS MCT` → ids kept by `apply_mct`, or `exc` (empty catalog)
+* `c04_next EVENTS FILTERS0 REGION0 apply(0|1) FILTERS MCT|none spatial(0|1) REGION` → ids of the catalog yielded by
+  `CatalogForecast.__next__`, or `exc:empty` / `exc:noregion`
+
+MCT     `eventEpoch;tCrit;ids of the rows with mw < mct (comma separated, `-` = none)`
 
 EVENTS  `-` or `id,ms,lat,lon,depth,mag` joined by `;` (rationals `n/d`)
 stmt    `t|lat|lon|dep|mag,gt|lt|ge|le|eq,value`  or  `dt,op,Y,M,D,h,m,s,us`
@@ -84,7 +90,35 @@ def hist (ev fs rg : String) (calls : List String) : String :=
     "|".intercalate (flags :: h.map showIds)
   | _, _, _, _ => "bad-op"
 
+def parseIds? (s : String) : Option (List Nat) :=
+  if s = "-" then some [] else (s.splitOn ",").mapM (·.toNat?)
+
+def parseMct? (s : String) : Option Mct :=
+  match s.splitOn ";" with
+  | [ep, tc, ids] => do
+      let ids ← parseIds? ids
+      some ⟨← parseRat? ep, ← parseRat? tc, fun e => ids.contains e.id⟩
+  | _ => none
+
+def parseMctOpt? (s : String) : Option (Option Mct) :=
+  if s = "none" then some none else (parseMct? s).map some
+
+def showEvIds (es : List Event) : String := showList (fun (e : Event) => toString e.id) es
+
 def handle : List String → Option String
+  | ["c04_mct", ev, m] => some (
+      match parseSemi? parseEvent? ev, parseMct? m with
+      | some ev, some m => (match applyMct m ev with | .ok es => showEvIds es | .error _ => "exc")
+      | _, _ => "bad-op")
+  | ["c04_next", ev, fs0, rg0, ap, fs, m, sp, rg] => some (
+      match parseSemi? parseEvent? ev, parseSemi? parseStmt? fs0, parseRegion? rg0, parseBool? ap,
+            parseSemi? parseStmt? fs, parseMctOpt? m, parseBool? sp, parseRegion? rg with
+      | some ev, some fs0, some rg0, some ap, some fs, some m, some sp, some rg =>
+        (match nextFilter ⟨ap, fs, m, sp, rg⟩ ⟨ev, fs0, rg0⟩ with
+         | .ok c => showIds c
+         | .error .emptyCatalog => "exc:empty"
+         | .error .noRegion => "exc:noregion")
+      | _, _, _, _, _, _, _, _ => "bad-op")
   | "c04_hist" :: ev :: fs :: rg :: calls => some (hist ev fs rg calls)
   | ["c04_load", ev, fs, rg] => some (
       match parseSemi? parseEvent? ev, parseSemi? parseStmt? fs, parseRegion? rg with
